@@ -551,6 +551,40 @@ theorem validate_header_no_panic_dma (c : Ctx) (h : Hdr) (hv5 : headerVersion c.
 
 
 
+/-! ## which proofs count: the classification by edge bits -/
+
+/-- A proof is secondary iff its edge bits are 29 and primary iff they are not 29 and at least the
+chain's minimum; so a header passes the edge-bit check iff `edge_bits = 29 ∨ edge_bits ≥ min`. -/
+theorem edge_bits_rule (ct : ChainType) (e : Nat) :
+    (isPrimary ct e = true ∨ isSecondary e = true) ↔ (e = SECOND_POW_EDGE_BITS ∨ minEdgeBits ct ≤ e) := by
+  simp only [isPrimary, isSecondary, Bool.and_eq_true, bne_iff_ne, ne_eq, decide_eq_true_eq,
+    beq_iff_eq]
+  by_cases h : e = SECOND_POW_EDGE_BITS <;> simp [h]
+
+/-- On Mainnet and Testnet (minimum 31) edge bits 24..28 and 30 are neither, 29 is secondary and
+everything from 31 up is primary. -/
+theorem edge_bits_main_test (ct : ChainType) (hct : ct = .mainnet ∨ ct = .testnet) (e : Nat) :
+    (e < 31 → e ≠ 29 → isPrimary ct e = false ∧ isSecondary e = false) ∧
+    (e = 29 → isPrimary ct e = false ∧ isSecondary e = true) ∧
+    (31 ≤ e → isPrimary ct e = true ∧ isSecondary e = false) := by
+  have hmin : minEdgeBits ct = 31 := by rcases hct with rfl | rfl <;> rfl
+  have h29 : SECOND_POW_EDGE_BITS = 29 := rfl
+  refine ⟨fun h1 h2 => ?_, fun h1 => ?_, fun h1 => ?_⟩ <;>
+    simp only [isPrimary, isSecondary, hmin, h29] <;> simp <;> omega
+
+/-- such a header is refused by `validate_header` (with `LowEdgebits` unless an earlier check fires) -/
+theorem low_edge_bits_refused (c : Ctx) (h prev : Hdr) (hp : c.prev = some prev)
+    (hs : c.skipPow = false) (he : h.edgeBits ≠ SECOND_POW_EDGE_BITS) (hlt : h.edgeBits < minEdgeBits c.ct) :
+    ∃ e, validateHeader c h = .error e ∧ errRank e ≤ 7 := by
+  have hn : ¬ (isPrimary c.ct h.edgeBits = true ∨ isSecondary h.edgeBits = true) := by
+    rw [edge_bits_rule]; omega
+  have hb : isPrimary c.ct h.edgeBits = false ∧ isSecondary h.edgeBits = false := by
+    cases hA : isPrimary c.ct h.edgeBits <;> cases hB : isSecondary h.edgeBits <;> simp_all
+  exact ((validate_header_complete_by_rule c h prev hp).2.2.2.2.2 hs).1 hb
+
+example : isPrimary .mainnet 30 = false ∧ isPrimary .mainnet 31 = true ∧ isPrimary .mainnet 29 = false ∧
+    isPrimary .automatedTesting 10 = true ∧ isPrimary .userTesting 14 = false := by decide
+
 /-! ## the pipeline around `validate_header` -/
 
 /-- `process_block_header` (after its "already known" short-cuts) accepts only headers that obey
